@@ -36,9 +36,9 @@ type c12Atom struct {
 
 // c12Val: a value on the right of '='
 type c12Val struct {
-	atom *c12Atom
-	arr  []*c12Val // when isArr
-	kvs  []c12KV   // when isInl
+	atom         *c12Atom
+	arr          []*c12Val // when isArr
+	kvs          []c12KV   // when isInl
 	isArr, isInl bool
 }
 
@@ -153,7 +153,25 @@ func c12LiteralOK(s string) bool {
 	return true
 }
 
+// c12KeySpelling forces the spelling of keys in printed documents (set only by the single-threaded
+// codec part): 0 random, 1 bare wherever possible, 2 basic strings, 3 literal strings wherever possible
+var c12KeySpelling = 0
+
 func c12PrintKey(r *Rng, k string) string {
+	switch c12KeySpelling {
+	case 1:
+		if c12BareKey(k) {
+			return k
+		}
+		return c12BasicString(k)
+	case 2:
+		return c12BasicString(k)
+	case 3:
+		if c12LiteralOK(k) {
+			return "'" + k + "'"
+		}
+		return c12BasicString(k)
+	}
 	if c12BareKey(k) && !r.Chance(1, 6) {
 		return k
 	}
@@ -706,6 +724,13 @@ func c12TomlTrees(c *Cfg, r *Rng, n int) {
 		if t.size() > 60 {
 			continue
 		}
+		c12RunTree(c, ctx, t)
+	}
+}
+
+// c12RunTree: one data tree through Encoder → text → Decoder → BuildExpr (ops tomlround O, tomlemit I)
+func c12RunTree(c *Cfg, ctx *cue.Context, t *c12Tree) {
+	{
 		line := t.proto()
 		c.Case("tomlround "+line, t.hasAoT())
 		c.Count(fmt.Sprintf("toml.tree.size<=%d", (t.size()/10+1)*10))
